@@ -13,6 +13,9 @@ LEVEL_TEXT = ("static: decides on every CFG path, including OOM/failure unwinds,
               "user completion callback unless re-derived or pinned; (ENDER) who may invoke and free wire queries. Re-entrant API set assumed inside "
               "completion callbacks: new requests and ares_cancel."
               " Also decides that no record type parks a query/connection pointer outside the indexes the release path clears, and that the deferred re-send looks its query up by id again.")
+# fifth-round additions
+TECHNIQUE += "; " + 'reachability from effectful calls to stores through out-parameters that callers point into heap request state (R-C01-OUTPARAM)'
+LEVEL_TEXT += " " + '(OUTPARAM) after a call that may run the completion callback nothing is stored through an out-parameter for which some caller passes the address of a member of a heap object, except on the edge on which that call reported the request as pending.'
 LEVEL_NOTE = ("trusts clang CFG + extractor; indirect calls are resolved by slot (completion-typed pointers) and per container instance; "
               "effect preconditions and pins are frozen tables with one-line reasons (EFFECT_PRECONDITIONS, PINNED)")
 DESIGN_REF = "DESIGN.md §6/C01"
